@@ -1,40 +1,56 @@
-(* R-CLIENT model side.  stdin:
+(* R-CLIENT model side: the extracted multi-client world (Model/CliWorld.wstep over Model/Client).  stdin:
      VERSION <hex>
      NODES <nodehex,...>                           conf_nodes in order (as the C dumped them)
      ALIAS <namehex> <memberhex,...>               in conf_aliases list order
      DEVTAB <namehex> <spechex> <i,i,..|-> <plughex:nodehex|-,...|->
      ENDDEFS
-     then the ops of harness/cli_h.c.  Output format identical to cli_h.c. *)
+     then the ops of harness/cli_h.c.  Output format identical to cli_h.c.
+   Client k of the case is the k-th connection, whose id is CLI_ID_FIRST + k (the world hands ids out itself).
+   A completion / telemetry / diagnostic "of client k" is the callback of the first queued action tagged with k's id.
+   PROTO <tag> <hex> : the extracted recogniser Spec/Proto on a byte stream (the monitor of C15/C06):
+                       prints  PROTO <tag> ok=<b> rest=<b> prefix=<b> terminals=<n>  *)
 external pm_expand : string -> string = "pm_expand"
 external pm_compress : string -> string = "pm_compress"
 external pm_ranged_plain : string -> string = "pm_ranged_plain"
 external pm_sorted : string -> string = "pm_sorted"
 let joinn l = String.concat "\n" (List.map string_of_text l)
 let splitn s = if s = "" then [] else List.map text_of_string (String.split_on_char '\n' s)
-let expand_str t = let r = pm_expand (string_of_text t) in if r = "\001" then None else Some (splitn r)
+(* devstub's pm_expand signals NULL by the one-byte string "\001", which is also the expansion of the host name "\001":
+   tell the two apart by expanding the argument with one more host appended *)
+let expand_str t =
+  let s = string_of_text t in
+  let r = pm_expand s in
+  if r = "\001" && pm_expand (s ^ ",q") = "\001" then None else Some (splitn r)
 let ranged_sorted l = text_of_string (pm_compress (joinn l))
 let ranged_plain l = text_of_string (pm_ranged_plain (joinn l))
 let sorted l = splitn (pm_sorted (joinn l))
 let split c s = if s = "-" || s = "" then [] else String.split_on_char c s
+let step w e = wstep expand_str ranged_sorted ranged_plain sorted w e
 
 let () =
   let version = ref [] and nodes = ref [] and aliases = ref [] and devs = ref [] in
-  let cf = ref { cf_nodes = []; cf_aliases = []; cf_devs = [] } in
-  let store = ref [] in
-  let clients : client array = Array.make 16 (new_client Z0 []) in
+  let w = ref (world0 { cf_nodes = []; cf_aliases = []; cf_devs = [] }) in
+  let first_id = ref 1 in
   let seen = Array.make 16 0 in
-  let nc = ref 0 and nextid = ref 1 in
+  let nc = ref 0 in
+  let dead = ref false in
+  let id_of k = z_of_int (!first_id + k) in
+  let client k = find_client !w.w_clients (id_of k) in
   let outputs () =
     for k = 0 to !nc - 1 do
-      let o = string_of_text clients.(k).cl_out in
-      if String.length o > seen.(k) then begin
-        Printf.printf "OUT %d %s\n" k (hex_of_string (String.sub o seen.(k) (String.length o - seen.(k)))); seen.(k) <- String.length o end
+      match client k with
+      | None -> ()
+      | Some c ->
+        let o = string_of_text c.cl_out in
+        if String.length o > seen.(k) then begin
+          Printf.printf "OUT %d %s\n" k (hex_of_string (String.sub o seen.(k) (String.length o - seen.(k)))); seen.(k) <- String.length o end
     done in
-  let dead = ref false in
-  let finish k err msg =
-    match act_finish ranged_sorted clients.(k) !store (z_of_int err) msg with
-    | Ok c -> clients.(k) <- c
-    | _ -> print_endline "OUTCOME Abort"; dead := true in
+  let apply e = match step !w e with Ok w' -> w := w' | _ -> print_endline "OUTCOME Abort"; dead := true in
+  (* index of the first queued action tagged with client k's id *)
+  let action_of k =
+    let rec go i = function [] -> None | e :: r -> if int_of_z e.qe_client = !first_id + k then Some i else go (i + 1) r in
+    go 0 !w.w_queue in
+  let dev_index name = let rec go i = function [] -> -1 | d :: r -> if d.cd_edev.ed_name = name then i else go (i + 1) r in go 0 !w.w_cf.cf_devs in
   List.iter (fun l -> if not !dead then
     match words l with
     | ["VERSION"; v] -> version := text_of_hex v
@@ -46,49 +62,83 @@ let () =
                    | _ -> failwith "plug") (split ',' plugs) in
         devs := !devs @ [ { cd_edev = { ed_name = text_of_hex name; ed_plugs = pl; ed_scripts = List.map (fun s -> z_of_int (int_of_string s)) (split ',' scripts) };
                             cd_spec = text_of_hex spec; cd_state = Z0; cd_conn = Z0; cd_acts = Z0 } ]
-    | ["ENDDEFS"] -> cf := { cf_nodes = !nodes; cf_aliases = !aliases; cf_devs = !devs }
-    | ["CONN"] -> clients.(!nc) <- new_client (z_of_int !nextid) !version; incr nextid; incr nc; outputs (); print_endline "END"
+    | ["ENDDEFS"] -> w := world0 { cf_nodes = !nodes; cf_aliases = !aliases; cf_devs = !devs }; first_id := int_of_z !w.w_next
+    | ["CONN"] -> apply (WConnect !version); incr nc; outputs (); print_endline "END"
+    | ["DROP"; k] -> apply (WDrop (id_of (int_of_string k))); outputs (); print_endline "END"
     | ["BYTES"; k; hx] ->
         let k = int_of_string k in
-        (* cbuf_read_line: complete lines only, each including its newline; the rest stays buffered (cases send whole lines) *)
-        let data = string_of_hex hx in
-        let lines = let rec go s acc = match String.index_opt s '\n' with
-                      | Some i -> go (String.sub s (i + 1) (String.length s - i - 1)) (String.sub s 0 (i + 1) :: acc)
-                      | None -> List.rev acc in go data [] in
-        let queued = Buffer.create 64 in
-        List.iter (fun ln ->
-          let (((cf', store'), c'), q) = parse_input expand_str ranged_sorted ranged_plain sorted !cf !store clients.(k) (text_of_string ln) in
-          cf := cf'; store := store'; clients.(k) <- c';
-          List.iteri (fun i (_, acts) -> List.iter (fun a ->
-            Buffer.add_string queued (Printf.sprintf "%d:%d:%s;" i (int_of_z a.qa_com)
-              (match a.qa_plugs with None -> "NULL" | Some [] -> "EMPTY" | Some ps -> String.concat "," (List.map (fun p -> hex_of_text p.pl_name) ps)))) acts) q) lines;
-        if Buffer.length queued > 0 then Printf.printf "QUEUED %s\n" (Buffer.contents queued);
-        outputs (); print_endline "END"
+        (match client k with
+         | None -> print_endline "GONE"; print_endline "END"
+         | Some _ ->
+          (* cbuf_read_line: complete lines only, each including its newline; the rest stays buffered (cases send whole lines) *)
+          let data = string_of_hex hx in
+          let lines = let rec go s acc = match String.index_opt s '\n' with
+                        | Some i -> go (String.sub s (i + 1) (String.length s - i - 1)) (String.sub s 0 (i + 1) :: acc)
+                        | None -> List.rev acc in go data [] in
+          let before = List.length !w.w_queue in
+          List.iter (fun ln -> if not !dead then apply (WLine (id_of k, text_of_string ln))) lines;
+          let fresh = let rec drop n l = if n = 0 then l else match l with [] -> [] | _ :: r -> drop (n - 1) r in drop before !w.w_queue in
+          (* the C dumps device by device *)
+          let fresh = List.stable_sort (fun a b -> compare (dev_index a.qe_dev) (dev_index b.qe_dev)) fresh in
+          if fresh <> [] then begin
+            print_string "QUEUED ";
+            List.iter (fun e -> Printf.printf "%d:%d:%s;" (dev_index e.qe_dev) (int_of_z e.qe_act.qa_com)
+              (match e.qe_act.qa_plugs with None -> "NULL" | Some [] -> "EMPTY" | Some ps -> String.concat "," (List.map (fun p -> hex_of_text p.pl_name) ps))) fresh;
+            print_newline () end;
+          outputs (); print_endline "END")
     | ["DONE1"; k; err; msg] ->
         let k = int_of_string k in
-        if clients.(k).cl_cmd = None then print_endline "SKIP" else finish k (int_of_string err) (text_of_hex msg);
+        (match client k, action_of k with
+         | None, Some i -> apply (WComplete (nat_of_int i, z_of_int (int_of_string err), text_of_hex msg)); print_endline "ORPHAN"
+         | None, None -> print_endline "ORPHAN"
+         | Some c, _ when c.cl_cmd = None -> print_endline "SKIP"
+         | Some _, Some i -> apply (WComplete (nat_of_int i, z_of_int (int_of_string err), text_of_hex msg))
+         | Some _, None -> print_endline "OUTCOME NoAction"; dead := true);
         outputs (); print_endline "END"
     | ["DONEALL"; k; errs; msg] ->
         let k = int_of_string k in
-        if clients.(k).cl_cmd = None then print_endline "SKIP"
-        else begin let i = ref 0 in
-          while clients.(k).cl_cmd <> None && not !dead do
-            finish k (Char.code errs.[!i mod String.length errs] - 48) (text_of_hex msg); incr i done end;
+        (match client k with
+         | None -> print_endline "GONE"
+         | Some c when c.cl_cmd = None -> print_endline "SKIP"
+         | Some _ ->
+           let i = ref 0 in
+           let busy () = match client k with Some c -> c.cl_cmd <> None | None -> false in
+           while busy () && not !dead do
+             (match action_of k with
+              | Some j -> apply (WComplete (nat_of_int j, z_of_int (Char.code errs.[!i mod String.length errs] - 48), text_of_hex msg))
+              | None -> print_endline "OUTCOME NoAction"; dead := true);
+             incr i done);
         outputs (); print_endline "END"
     | ["ARG"; k; node; st; res; v] ->
         let k = int_of_string k in
-        (match clients.(k).cl_cmd with
-         | None -> print_endline "SKIP"
-         | Some cmd ->
-           let i = int_of_nat cmd.k_args in
-           let al = List.nth !store i in
-           (match arg_find al (text_of_hex node) with
-            | None -> print_endline "NOARG"
-            | Some _ ->
-              let al' = arg_update al (text_of_hex node) (fun x -> { ar_node = x.ar_node; ar_state = z_of_int (int_of_string st); ar_result = z_of_int (int_of_string res);
-                                                                     ar_val = (if v = "~" then None else Some (text_of_hex v)) }) in
-              store := List.mapi (fun j x -> if j = i then al' else x) !store));
+        (match client k with
+         | None -> print_endline "GONE"
+         | Some c ->
+          (match c.cl_cmd with
+           | None -> print_endline "SKIP"
+           | Some cmd ->
+             let i = int_of_nat cmd.k_args in
+             let al = List.nth !w.w_store i in
+             (match arg_find al (text_of_hex node) with
+              | None -> print_endline "NOARG"
+              | Some _ ->
+                (* the harness pokes all three fields at once (incl. val = NULL), which no single script statement does *)
+                let al' = arg_update al (text_of_hex node) (fun x -> { ar_node = x.ar_node; ar_state = z_of_int (int_of_string st); ar_result = z_of_int (int_of_string res);
+                                                                       ar_val = (if v = "~" then None else Some (text_of_hex v)) }) in
+                w := { !w with w_store = List.mapi (fun j x -> if j = i then al' else x) !w.w_store })));
         outputs (); print_endline "END"
-    | ["TELE"; k; hx] -> let k = int_of_string k in (if clients.(k).cl_cmd = None then print_endline "SKIP" else clients.(k) <- telemetry clients.(k) (text_of_hex hx)); outputs (); print_endline "END"
-    | ["DIAG"; k; hx] -> let k = int_of_string k in (if clients.(k).cl_cmd = None then print_endline "SKIP" else clients.(k) <- diag clients.(k) (text_of_hex hx)); outputs (); print_endline "END"
+    | ["TELE"; k; hx] | ["DIAG"; k; hx] ->
+        let tele = (List.hd (words l) = "TELE") in
+        let k = int_of_string k in
+        (match client k, action_of k with
+         | None, Some i -> apply (if tele then WTele (nat_of_int i, text_of_hex hx) else WDiag (nat_of_int i, text_of_hex hx)); print_endline "ORPHAN"
+         | None, None -> print_endline "ORPHAN"
+         | Some c, _ when c.cl_cmd = None -> print_endline "SKIP"
+         | Some _, Some i -> apply (if tele then WTele (nat_of_int i, text_of_hex hx) else WDiag (nat_of_int i, text_of_hex hx))
+         | Some _, None -> print_endline "OUTCOME NoAction"; dead := true);
+        outputs (); print_endline "END"
+    | ["PROTO"; tag; hx] ->
+        let s = text_of_hex hx in
+        let nt = match tokens s with Some ts -> int_of_nat (terminals ts) | None -> -1 in
+        Printf.printf "PROTO %s ok=%b rest=%b prefix=%b terminals=%d\n" tag (ok s) (ok_rest s) (ok_prefix s) nt
     | _ -> ()) (read_lines ())
